@@ -17,7 +17,12 @@ import ast
 
 LOSSY = {"len", "id", "type", "hash", "bool", "np.size", "np.shape", "np.ndim", "numpy.size", "numpy.shape", "numpy.ndim", "round", "int"}
 LOSSY_ATTRS = {"shape", "size", "ndim", "dtype", "columns", "index"}
-CONTAINER_CALLS = {"dict", "list", "set", "OrderedDict", "defaultdict", "collections.OrderedDict", "collections.defaultdict", "WeakValueDictionary", "weakref.WeakValueDictionary"}
+CONTAINER_CALLS = {
+    "dict", "list", "set", "OrderedDict", "defaultdict", "collections.OrderedDict", "collections.defaultdict", "WeakValueDictionary", "weakref.WeakValueDictionary",
+    "WeakKeyDictionary", "weakref.WeakKeyDictionary", "bytearray", "deque", "collections.deque",
+    # numpy buffers kept at module level
+    "np.empty", "np.zeros", "np.ones", "np.full", "np.array", "numpy.empty", "numpy.zeros", "numpy.ones", "numpy.full", "numpy.array",
+}
 
 SELFTEST_SRC = '''
 _memo = {}
@@ -263,6 +268,11 @@ def analyse_module(tree, relpath):
                     if missing:
                         how = "single-slot state reused when " + ("the argument is the same object (`is`), although its contents may have changed" if by_identity & set(missing) else "a guard that does not cover these parameters holds")
                         findings.append(MemoFinding(qual, n.lineno, slot, missing, how))
+        # --- a module-level buffer handed out to callers: `return _WORK` (every caller - every object that stores the
+        # result - then shares one array; the next call overwrites what the previous caller kept)
+        for n in own_nodes:
+            if isinstance(n, ast.Return) and isinstance(n.value, ast.Name) and n.value.id in state and (n.value.id in globals_declared or not any(isinstance(a, ast.Assign) and any(isinstance(t, ast.Name) and t.id == n.value.id for t in a.targets) for a in own_nodes)):
+                findings.append(MemoFinding(qual, n.lineno, n.value.id, ["<identity of the returned mutable object>"], "module-level mutable state is returned to the caller (all callers share one object)"))
         for sub in own_nodes:
             if isinstance(sub, (ast.FunctionDef, ast.AsyncFunctionDef)) and sub is not fnode:
                 scan(sub, params, qual + "." + sub.name)
